@@ -191,6 +191,54 @@ def work(item):
                 if k.startswith("author-id-lost"):
                     k = f"{k}|{site_class(label, plabel)}"          # by construct (and deviation): losing ids on OTHER expressions is a different finding
                 viol.append((f"C09|{k}", f"{label} [{plabel}]: {w}", {"kind": kind, "label": label, "plabel": plabel, "doc": terms.doc(pt), "planted": planted}))
+    elif kind == "carry":
+        # two expressions in one session: whatever was done on the first (moves, place markers, undo until nothing is left, cursor routing),
+        # every id handed out after the second set_mathml is an id of the SECOND returned MathML
+        _, pairs, pres, posts = item
+        setup = [["rules_dir", mcx.RULES], ["pref", "TTS", "SSML"], ["pref", "Bookmark", "true"]]
+        for (la, ta), (lb, tb) in pairs:
+            da, db = terms.doc(ta), terms.doc(tb)
+            cases, meta = [], []
+            for pre in pres:
+                ops = [["mathml", da]] + [["nav", c] for c in pre] + [["mathml", db]]
+                ib = len(ops) - 1
+                probes = []
+                for post in posts:
+                    ops += [["nav", post], ["navid"], ["navmml"]]
+                    probes.append((post, len(ops) - 2, len(ops) - 1))
+                ops += [["speech"], ["nodeat", 0], ["nodeat", 2]]
+                cases.append(ops)
+                meta.append((pre, ib, probes, len(ops) - 3))
+            _, res = mc.run_cases(setup, cases, fresh=True)
+            for (pre, ib, probes, isp), r in zip(meta, res):
+                counts["evaluations"] += 1
+                if any(is_panic(x) for x in r):
+                    counts["skipped_panics"] += 1
+                    continue
+                if not is_ok(r[0]) or not is_ok(r[ib]):
+                    continue
+                idsb = ids_of(val(r[ib]))
+                replay = {"kind": "carry", "label": la + " / " + lb, "doc": da, "doc2": db, "pre": list(pre), "posts": list(posts)}
+                seen = []
+                for post, i, j in probes:
+                    if is_ok(r[i]) and val(r[i])[0] not in idsb:
+                        viol.append((f"C09|foreign-id|second-expression|nav|{post}", f"{la} then {lb}: after {'->'.join(pre) or 'nothing'} on the first expression, set_mathml(second) and {post}, "
+                                     f"the navigation id is {val(r[i])[0]!r}, which is not an id of the second returned MathML", replay))
+                    if is_ok(r[j]):
+                        for got in ids_of(val(r[j])[0]):
+                            if got not in idsb:
+                                viol.append((f"C09|foreign-id|second-expression|navmml|{post}", f"{la} then {lb}: after {'->'.join(pre) or 'nothing'}, set_mathml(second) and {post}, the navigation MathML carries id {got!r} of another expression", replay))
+                                break
+                    seen.append(str(val(r[i])[0]) if is_ok(r[i]) else "E")
+                if is_ok(r[isp]):
+                    for m in re.findall(r"<mark name=['\"]([^'\"]*)['\"]", val(r[isp])):
+                        if m not in idsb:
+                            viol.append(("C09|foreign-id|second-expression|bookmark", f"{la} then {lb}: bookmark {m!r} in the speech of the second expression is not one of its ids", replay))
+                            break
+                for k in (isp + 1, isp + 2):
+                    if is_ok(r[k]) and val(r[k])[0] not in idsb:
+                        viol.append(("C09|foreign-id|second-expression|nodeat", f"{la} then {lb}: node-from-braille returned {val(r[k])[0]!r}, not an id of the second expression", replay))
+                nontriv.append(hash((la, lb, pre, norm_ids(" ".join(seen)))))
     elif kind == "reset":
         # the editor flow inside ONE session: take the MathML the library returned, add elements that have no id yet, set it again
         _, cases = item
@@ -287,7 +335,10 @@ def confirm(replay, verbose=False):
     mcx._worker_mc = mc
     try:
         t = terms.parse_xml(replay["doc"]).kids[0]
-        if replay["kind"] == "reset":
+        if replay["kind"] == "carry":
+            t2 = terms.parse_xml(replay["doc2"]).kids[0]
+            v, _, _ = work(("carry", [((replay["label"].split(" / ")[0], t), (replay["label"].split(" / ")[-1], t2))], [tuple(replay["pre"])], tuple(replay["posts"])))
+        elif replay["kind"] == "reset":
             # sessions hand out ids per call: replay the term after another one, as in the run
             v, _, _ = work(("reset", [("warm-up", terms.row(terms.mi("a"), terms.mo("+"), terms.mi("b"))), (replay["label"], t)]))
             v = [x for x in v if x[2]["label"] == replay["label"]]
@@ -341,8 +392,17 @@ def main(tier):
         step = 4
         for i in range(0, len(hist_corp), step):
             jobs.append(("hist", engine, hist_corp[i:i + step], seqs1 + (seqs2 if (tier == "thorough" and engine == "SSML") or (tier == "quick" and engine == "SSML") else [])))
-    if tier == "thorough":
-        pass
+    # carry-over between two expressions of one session: every sequence of <= 4 (thorough 5) commands over moves, a place marker and undo on the first
+    import itertools
+    alpha = ["ZoomIn", "MoveNext", "SetPlacemarker1", "MoveLastLocation", "ZoomOut"]
+    pres = [()] + [p for n in range(1, (5 if tier == "quick" else 6)) for p in itertools.product(alpha, repeat=n)]
+    posts = ("MoveTo1", "MoveLastLocation", "ReadCurrent", "MoveTo0", "ZoomIn", "WhereAmI")
+    by = dict(small)
+    pairs = [(("frac", by["frac"]), ("add", by["add"])), (("matrix", by["matrix"]), ("sup", by["sup"])), (("add", by["add"]), ("add", by["add"]))]
+    run.count("carry_over_histories", len(pres) * len(pairs))
+    for pr in pairs:
+        for i in range(0, len(pres), 60):
+            jobs.append(("carry", [pr], pres[i:i + 60], posts))
     # determinism gate
     outs = []
     for _ in range(2):
@@ -364,7 +424,7 @@ def main(tier):
         rule="plantings: every spine term of G to depth 2 and every trigger term x {no ids, one author id at each element in turn, ids on all "
              "elements, duplicate ids, an author id that looks generated}; the editor flow (returned MathML + elements without ids, set again in the same session: ids stay distinct); histories: per expression (quick: depth-1 terms + triggers; thorough: depth 2) "
              f"all navigation sequences of length <= 2 over {len(NAV1)} commands, Bookmark=true speech under SSML and SAPI5, node-from-braille for the first "
-             f"{NCELLS} cells, and cursor routing (node-from-braille -> set_navigation_node with the reported offset -> command). "
+             f"{NCELLS} cells, and cursor routing (node-from-braille -> set_navigation_node with the reported offset -> command); carry-over: every command sequence of length <= 4 (thorough 5) over moves, a place marker and undo on a first expression, then a second expression and 6 commands, bookmarks and routing - all ids belong to the second. "
              "distinct_nontrivial = distinct (expression, planting) and (expression, query, answer) combinations",
         assumptions=["an author id on an <mrow> or wrapper element may disappear with the element (statement speaks of tokens and 2-D elements)",
                      "with duplicate author ids only uniqueness of generated ids and no further duplication is demanded"],
